@@ -60,9 +60,10 @@ def make_score_class(names, table):
 
 
 def gen_hc(rng, tier):
-    n = rng.randint(3, 5)
-    names = gen.node_names(rng, n, rng.choice(["str", "word", "int"]))
-    _, start = gen.rand_dag_edges(rng, n, rng.choice(["isolated", "isolated", "gnp", "chain"]))
+    n = rng.randint(3, 6 if rng.random() < .3 else 5)
+    names = gen.node_names(rng, n, rng.choice(["str", "word", "int", "int0"]))
+    # "ring" = a directed path plus the shortcut edge between its ends: reversing the shortcut closes a long cycle
+    _, start = gen.rand_dag_edges(rng, n, rng.choice(["isolated", "isolated", "gnp", "chain", "ring", "gnp_dense"]))
     pairs = [(a, b) for a in range(n) for b in range(n) if a != b]
     black = [list(p) for p in rng.sample(pairs, rng.choice([0, 0, 1, 3])) if p not in start]
     white = None
@@ -226,7 +227,7 @@ def run_exh(case, drv):
 # ----------------------------------------------------------------------------- Chow-Liu
 def gen_tree(rng, tier):
     n = rng.randint(2, 6)
-    names = gen.node_names(rng, n, rng.choice(["str", "word"]))
+    names = gen.node_names(rng, n, rng.choice(["str", "word", "int", "int0", "int0"]))     # column labels may be integers, 0 included
     ws = rng.sample(range(1, 200), n * (n - 1) // 2)
     wedges = [[a, b, rs(Fraction(ws.pop(), 64))] for a in range(n) for b in range(a + 1, n)]
     return {"names": names, "n": n, "wedges": wedges, "root": rng.randrange(n), "tan": rng.random() < .3 and n >= 3,
